@@ -7,7 +7,7 @@ from lib.coqterm import cbytes, cbool, copt, cN, clist, hx, unhx
 
 ID = "C54"
 QUICK_N = 3000
-THOROUGH_N = 40000
+THOROUGH_N = 60000
 SHARD = 250
 RULE = ("a case is a history of 2-9 response/request events driven through one real StickyCookie instance. 70%: "
         "responses from a host of a related-host family (base, sub, parent, look-alikes that contain the base as an "
@@ -441,9 +441,12 @@ def oracle(case, obs):
                         fam = "path-prefix-not-segment" if _u(ev["path"]).startswith(_u(q)) else "path-other"
                         v.append({"key": "attach-" + fam,
                                   "what": f"cookie with path {_u(q)!r} attached to request for {_u(ev['path'])!r}"})
-    # one report per family and case
+    # one report per family and case; the known findings describe the unchanged code only: on a tree that has the
+    # repaired predicates the same families are regressions and get their own keys
     seen, out = set(), []
     for x in v:
+        if obs["fixed"]:
+            x = {"key": "repaired-" + x["key"], "what": x["what"]}
         if x["key"] not in seen:
             seen.add(x["key"]); out.append(x)
     return out
